@@ -26,6 +26,19 @@ pub(crate) fn split_top_level_commas(inner: &str) -> Vec<String> {
     parts
 }
 
+/// Drop the leading `a::b::` of a path type, looking only at the part before the generic
+/// arguments (`std::vec::Vec<crate::User>` -> `Vec<crate::User>`; the argument is handled when
+/// it is parsed itself)
+pub(crate) fn strip_path_qualifier(rust_type: &str) -> &str {
+    let head_end = rust_type
+        .find(|c| c == '<' || c == '(' || c == '[')
+        .unwrap_or(rust_type.len());
+    match rust_type[..head_end].rfind("::") {
+        Some(pos) => &rust_type[pos + 2..],
+        None => rust_type,
+    }
+}
+
 /// Type resolver for mapping Rust types to TypeScript types
 #[derive(Debug)]
 pub struct TypeResolver {
@@ -184,6 +197,11 @@ impl TypeResolver {
     /// This is the single source of truth for type parsing - generators use this instead of parsing strings
     pub fn parse_type_structure(&self, rust_type: &str) -> TypeStructure {
         let cleaned = rust_type.trim();
+
+        // A path-qualified spelling names the same type as its last segment:
+        // `std::collections::HashMap<K, V>` is `HashMap<K, V>`, `crate::models::User` is `User`.
+        // The qualifier (and its '::') must never reach the generated TypeScript
+        let cleaned = strip_path_qualifier(cleaned);
 
         // Handle references &T -> T
         if let Some(inner) = self.extract_reference_type(cleaned) {
